@@ -46,12 +46,14 @@ theorem recalloc_overflow (heap p count size : Nat) (hc : count < 2^64) (hs : si
 theorem calloc_aligned_overflow (heap count size alignment offset : Nat) (hc : count < 2^64) (hs : size < 2^64) (h : 2^64 ≤ count * size) :
     mi_heap_calloc_aligned_at gsp rdf pmzd pm bs ps ng pmz gen pp us heap count size alignment offset = (0, []) := by
   unfold mi_heap_calloc_aligned_at
-  simp [C06L.count_size_overflow_of_ge count size 1 hc hs h]
+  rw [C06L.count_size_overflow_of_ge count size 1 hc hs h]
+  rfl
 
 theorem recalloc_aligned_overflow (heap p count size alignment offset : Nat) (hc : count < 2^64) (hs : size < 2^64) (h : 2^64 ≤ count * size) :
     mi_heap_recalloc_aligned_at us gsp pmz gen rdf pmzd pm bs ps ng pp heap p count size alignment offset = (0, []) := by
   unfold mi_heap_recalloc_aligned_at
-  simp [C06L.count_size_overflow_of_ge count size 1 hc hs h]
+  rw [C06L.count_size_overflow_of_ge count size 1 hc hs h]
+  rfl
 
 /-- reallocarray: overflow returns NULL, sets errno to ENOMEM (12) and does nothing else -/
 theorem reallocarray_overflow (p count size : Nat) (hc : count < 2^64) (hs : size < 2^64) (h : 2^64 ≤ count * size) :
@@ -64,16 +66,22 @@ theorem aligned_bad_alignment (heap size alignment offset zero : Nat) (ha : alig
     (h : alignment = 0 ∨ alignment &&& (alignment - 1) ≠ 0) :
     mi_heap_malloc_zero_aligned_at gsp rdf pmzd pm bs ps ng pmz gen pp us heap size alignment offset zero = (0, []) := by
   unfold mi_heap_malloc_zero_aligned_at
-  simp only [if_pos (C06L.bad_alignment alignment ha h)]
+  exact if_pos (C06L.bad_alignment alignment ha h)
 
 /-- aligned allocation: a size above MI_MAX_ALLOC_SIZE returns NULL before touching the heap -/
 theorem aligned_oversize (heap size alignment offset zero : Nat) (hs : size < 2^64) (h : Gen.MI_MAX_ALLOC_SIZE < size) :
     mi_heap_malloc_zero_aligned_at gsp rdf pmzd pm bs ps ng pmz gen pp us heap size alignment offset zero = (0, []) := by
   have h' : size > 281474976579584 := h
   have h1 : ¬ ((size ≤ 1024) ∧ (alignment ≤ size)) := by omega
-  unfold mi_heap_malloc_zero_aligned_at mi_heap_malloc_zero_aligned_at_generic
-  simp only [if_neg h1, if_pos h']
-  split <;> simp
+  -- the generic path refuses first (rewriting with the exact test keeps a changed test from
+  -- sending `simp` into the whole function: the proof then fails at once instead of diverging)
+  have hg : mi_heap_malloc_zero_aligned_at_generic bs ps ng gsp pmz gen pp us heap size alignment offset zero = (0, []) := by
+    unfold mi_heap_malloc_zero_aligned_at_generic
+    rw [if_pos h']
+  unfold mi_heap_malloc_zero_aligned_at
+  rw [hg]
+  simp only [if_neg h1]
+  split <;> rfl
 
 /-- the generic allocation path refuses sizes above MI_MAX_ALLOC_SIZE (also after `size + padding` wrapped) -/
 theorem find_page_oversize (lh : Nat → Nat → Nat → Nat) (ff : Nat → Nat → Nat) (heap size ha : Nat) (hs : size < 2^64)
